@@ -471,23 +471,39 @@ func (b *backendPlaySessionHandler) handleAvailableCommands(p *packet.AvailableC
 }
 
 func filterNode(src brigodier.CommandNode, cmdSrc command.Source) brigodier.CommandNode {
+	return filterNodeSeen(src, cmdSrc, make(map[brigodier.CommandNode]brigodier.CommandNode))
+}
+
+// filterNodeSeen remembers the filtered copy of every visited node so that
+// redirects back to the root or an ancestor resolve to that copy instead of
+// recursing forever.
+func filterNodeSeen(
+	src brigodier.CommandNode,
+	cmdSrc command.Source,
+	seen map[brigodier.CommandNode]brigodier.CommandNode,
+) brigodier.CommandNode {
+	if dest, ok := seen[src]; ok {
+		return dest // nil if not usable or while resolving a pure redirect cycle
+	}
 	var dest brigodier.CommandNode
 	_, ok := src.(*brigodier.RootCommandNode)
 	if ok {
 		dest = &brigodier.RootCommandNode{}
 	} else {
+		seen[src] = nil
 		if !src.CanUse(command.ContextWithSource(context.Background(), cmdSrc)) {
 			return nil
 		}
 		builder := src.CreateBuilder().Requires(func(context.Context) bool { return true })
 		if src.Redirect() != nil {
-			builder.Redirect(filterNode(src.Redirect(), cmdSrc))
+			builder.Redirect(filterNodeSeen(src.Redirect(), cmdSrc, seen))
 		}
 		dest = builder.Build()
 	}
+	seen[src] = dest
 
 	src.ChildrenOrdered().Range(func(_ string, sourceChild brigodier.CommandNode) bool {
-		destChild := filterNode(sourceChild, cmdSrc)
+		destChild := filterNodeSeen(sourceChild, cmdSrc, seen)
 		if destChild != nil {
 			dest.AddChild(destChild)
 		}
